@@ -1,27 +1,25 @@
 /-
-  The root analysis WITHOUT the ghost flag `anomaly`: with the score laws, a ply-0 PV node searched to
-  depth ≥ 1 inside a sane window (`RootWin`) whose un-aborted value lies strictly inside the window
-  has a non-empty PV row or a final root; on a final root that value is 0 or the mated score.
+  The root analysis of Proofs/SearchScoreRoot.lean guarded by the ghost flag `St.ttOut` instead of
+  `St.nmpOut` (see Proofs/SearchScoreQ2.lean): a ply-0 PV node searched to depth ≥ 1 inside a sane
+  window whose un-aborted value lies strictly inside the window has a non-empty PV row or a final
+  root — provided no out-of-band value was handed to a table store on the way.
 -/
-import ChessVerif.Proofs.SearchScoreAB
-import ChessVerif.Proofs.SearchRoot
+import ChessVerif.Proofs.SearchScoreAB2
+import ChessVerif.Proofs.SearchScoreRoot
 
 namespace ChessVerif
 namespace Search
 
-variable {σ π : Type} [PsInv σ] {t0 : Bool}
+variable {σ π : Type} [PsInv σ]
 
-/-- what the root analysis concludes about a state `s'` reached from root board `b`. -/
-def RootOut' (K : Keys) (b : Board) (s' : St σ) : Prop := s'.pv.row 0 ≠ [] ∨ Final K b
-
-theorem abMoves_root' (c : Comp σ π) (L : Limits) {Good : Board → Prop} {TTok : σ → Prop} {μ : Board → Nat}
+theorem abMoves_root2 (c : Comp σ π) (L : Limits) {Good : Board → Prop} {TTok : σ → Prop} {μ : Board → Nat}
     (hl : Laws c Good) (sl : ScoreLaws c Good TTok μ) (child : Child σ)
-    (hc : ABSpec c L Good child) (hr : ABRange Good TTok t0 child) (alpha beta : Score) (d : Int)
+    (hc : ABSpec c L Good child) (hr : ABRange2 Good TTok child) (alpha beta : Score) (d : Int)
     (nt : NodeType) (inCheck improving : Bool) (se : Score)
-    (hm : Move) (s : St σ) (hw : s.nmpOut = false → WinOK alpha beta) (hg : Good s.board) (hfl : s.board.fifty < 100)
-    (hhash : HashOK c s.board hm) (htt : TTA TTok t0 s) :
+    (hm : Move) (s : St σ) (hw : s.ttOut = false → WinOK alpha beta) (hg : Good s.board) (hfl : s.board.fifty < 100)
+    (hhash : HashOK c s.board hm) (htt : TTA2 TTok s) :
     let o := abMoves c L child alpha beta d 0 nt inCheck improving se hm s
-    o.2.aborted = false → o.2.nmpOut = false → alpha < o.1 → o.1 < beta → RootOut' c.keys s.board o.2 := by
+    o.2.aborted = false → o.2.ttOut = false → alpha < o.1 → o.1 < beta → RootOut' c.keys s.board o.2 := by
   simp only [abMoves]
   generalize hx : ABCtx.mk alpha beta (if c.iir nt d hm then wrapS8 (d - 1) else d) 0 nt inCheck improving se = x
   have hxp : x.ply = 0 := by rw [← hx]
@@ -30,13 +28,13 @@ theorem abMoves_root' (c : Comp σ π) (L : Limits) {Good : Board → Prop} {TTo
     { alpha := alpha, bestMove := 0, hasLegal := false, failLow := true, maxim := -Inf - 1, moveCnt := 0, quietCnt := 0,
       pick := c.pickInit s.board hm, yielded := [] } s.pushFrame hg ⟨htt.1, hfl⟩ hhash Reach.init
       (fun _ m hm => by cases hm) (fun hh => by cases hh)
-  have h' := abLoop_range c L hl sl child hc hr x (by rw [hxp]; decide) (by rw [hxp]; decide) hm alpha
+  have h' := abLoop_range2 c L hl sl child hc hr x (by rw [hxp]; decide) (by rw [hxp]; decide) hm alpha
     ((MoveGen.gen s.board).length + 1)
     { alpha := alpha, bestMove := 0, hasLegal := false, failLow := true, maxim := -Inf - 1, moveCnt := 0, quietCnt := 0,
       pick := c.pickInit s.board hm, yielded := [] } s.pushFrame hg hfl hhash Reach.init (htt.congr rfl rfl)
     (fun hA => by
       obtain ⟨hw1, hw2, hw3, hw4⟩ := hw hA
-      exact ⟨by rw [hxb]; exact hw3, by rw [hxb]; exact hw4, hw1, hw2, (fun h => by cases h), (fun h => by cases h),
+      exact ⟨by rw [hxb]; exact hw3, by rw [hxb]; exact hw4, hw1, hw2, (fun h => by cases h),
         (fun _ => rfl), Int.le_refl _, Int.le_refl _, (fun h => by simp at h), fun _ => ⟨rfl, fun h => by cases h⟩⟩)
     (Or.inl rfl)
   simp only at h'
@@ -56,7 +54,7 @@ theorem abMoves_root' (c : Comp σ π) (L : Limits) {Good : Board → Prop} {TTo
     simp only at h ⊢
     intro _ hA hgt _
     obtain ⟨hno, hfl⟩ := h
-    have hinv := (h'.2.2 l rfl).1 hA
+    have hinv := (h'.2.2 l rfl).1 (flagTT_false hA).1
     cases hleg : l.hasLegal with
     | false => exact Or.inr (Or.inl (by simpa using hno hleg))
     | true =>
@@ -70,16 +68,16 @@ theorem abMoves_root' (c : Comp σ π) (L : Limits) {Good : Board → Prop} {TTo
         rw [e1] at e2
         exact absurd hgt (Int.not_lt.2 e2)
 
-theorem abPrune_root' (c : Comp σ π) (L : Limits) {Good : Board → Prop} {TTok : σ → Prop} {μ : Board → Nat}
+theorem abPrune_root2 (c : Comp σ π) (L : Limits) {Good : Board → Prop} {TTok : σ → Prop} {μ : Board → Nat}
     (hl : Laws c Good) (sl : ScoreLaws c Good TTok μ) (child : Child σ)
-    (hc : ABSpec c L Good child) (hr : ABRange Good TTok t0 child) (alpha beta : Score) (d : Int)
+    (hc : ABSpec c L Good child) (hr : ABRange2 Good TTok child) (alpha beta : Score) (d : Int)
     (hrfs : ∀ se, c.rfpCut d se beta = true → beta ≤ se)
     (nt : NodeType) (inCheck improving : Bool) (se : Score) (hse : inCheck = false → -9935 ≤ se ∧ se ≤ 9935)
-    (hm : Move) (s : St σ) (hw : s.nmpOut = false → WinOK alpha beta) (hg : Good s.board) (hfl : s.board.fifty < 100)
+    (hm : Move) (s : St σ) (hw : s.ttOut = false → WinOK alpha beta) (hg : Good s.board) (hfl : s.board.fifty < 100)
     (hhash : HashOK c s.board hm)
-    (hic : inCheck = s.board.inCheck s.board.stm) (htt : TTA TTok t0 s) :
+    (hic : inCheck = s.board.inCheck s.board.stm) (htt : TTA2 TTok s) :
     let o := abPrune c L child alpha beta d 0 nt inCheck improving se hm s
-    o.2.aborted = false → o.2.nmpOut = false → alpha < o.1 → o.1 < beta → RootOut' c.keys s.board o.2 := by
+    o.2.aborted = false → o.2.ttOut = false → alpha < o.1 → o.1 < beta → RootOut' c.keys s.board o.2 := by
   simp only [abPrune]
   split
   · next hrfp =>
@@ -96,28 +94,28 @@ theorem abPrune_root' (c : Comp σ π) (L : Limits) {Good : Board → Prop} {TTo
       have hbse : (beta : Int) ≤ se := sl.nmp_sound _ _ _ _ hnmp
       have hb2 : beta ≤ 9936 := Int.le_trans hbse (Int.le_trans (hse hic').2 (by decide))
       have hn := nullMove_spec c L hl child hc beta d (Int.le_refl 0) (by decide) se s hg htt.1 hchk
-      have hnr := nullMove_range c L hl child hc hr beta d (Int.le_refl 0) (by decide) se s hg hchk htt
+      have hnr := nullMove_range2 c L hl child hc hr beta d (Int.le_refl 0) (by decide) se s hg hchk htt
         (fun hA => ⟨(hw hA).2.2.1, hb2⟩)
       have hge := nullMove_ge c child beta d 0 se s
       simp only at hn hnr
       generalize nullMove c child beta d 0 se s = nm at hn hnr hge ⊢
       split
       · next v hv => intro _ _ _ hlt; exact absurd hlt (Int.not_lt.2 (hge v hv))
-      · have := abMoves_root' c L hl sl child hc hr alpha beta d nt inCheck improving se hm nm.2
-          (fun hA => hw (hn.1.mono.a_back hA))
+      · have := abMoves_root2 c L hl sl child hc hr alpha beta d nt inCheck improving se hm nm.2
+          (fun hA => hw (hn.1.mono.t_back hA))
           (by rw [hn.1.board]; exact hg) (by rw [hn.1.board]; exact hfl) (by rw [hn.1.board]; exact hhash) hnr.1
         rw [hn.1.board] at this
         exact this
-    · exact abMoves_root' c L hl sl child hc hr alpha beta d nt inCheck improving se hm s hw hg hfl hhash htt
+    · exact abMoves_root2 c L hl sl child hc hr alpha beta d nt inCheck improving se hm s hw hg hfl hhash htt
 
-theorem abBody_root' (c : Comp σ π) (L : Limits) {Good : Board → Prop} {TTok : σ → Prop} {μ : Board → Nat}
+theorem abBody_root2 (c : Comp σ π) (L : Limits) {Good : Board → Prop} {TTok : σ → Prop} {μ : Board → Nat}
     (hl : Laws c Good) (sl : ScoreLaws c Good TTok μ) (child : Child σ)
-    (hc : ABSpec c L Good child) (hr : ABRange Good TTok t0 child) (alpha beta : Score) (d : Int)
+    (hc : ABSpec c L Good child) (hr : ABRange2 Good TTok child) (alpha beta : Score) (d : Int)
     (hrfs : ∀ se, c.rfpCut d se beta = true → beta ≤ se)
-    (s : St σ) (hw : s.nmpOut = false → WinOK alpha beta) (hg : Good s.board) (hfl : s.board.fifty < 100)
-    (htt : TTA TTok t0 s) :
+    (s : St σ) (hw : s.ttOut = false → WinOK alpha beta) (hg : Good s.board) (hfl : s.board.fifty < 100)
+    (htt : TTA2 TTok s) :
     let o := abBody c L child alpha beta d 0 .pv s
-    o.2.aborted = false → o.2.nmpOut = false → alpha < o.1 → o.1 < beta → RootOut' c.keys s.board o.2 := by
+    o.2.aborted = false → o.2.ttOut = false → alpha < o.1 → o.1 < beta → RootOut' c.keys s.board o.2 := by
   simp only [abBody]
   split
   · next v heq =>
@@ -125,21 +123,21 @@ theorem abBody_root' (c : Comp σ π) (L : Limits) {Good : Board → Prop} {TTok
     split at heq
     · simp at heq
     · cases heq
-  · refine abPrune_root' c L hl sl child hc hr alpha beta d hrfs .pv _ _ _ ?_ _ s hw hg hfl
+  · refine abPrune_root2 c L hl sl child hc hr alpha beta d hrfs .pv _ _ _ ?_ _ s hw hg hfl
       (hashOK_probe c htt.1 s.board 0) rfl htt
     intro h
     simp only [h, Bool.false_eq_true, if_false]
     exact eval_band c s.board
 
 /-- A ply-0 PV node searched to depth `d ≥ 1` in a workable window in which reverse futility is
-    sound: un-aborted, ghost flag down and strictly inside the window ⇒ non-empty row 0 or final root. -/
-theorem alphaBeta_root_gen (c : Comp σ π) (L : Limits) {Good : Board → Prop} {TTok : σ → Prop} {μ : Board → Nat}
+    sound: un-aborted, flag `ttOut` down and strictly inside the window ⇒ non-empty row 0 or final root. -/
+theorem alphaBeta_root_gen2 (c : Comp σ π) (L : Limits) {Good : Board → Prop} {TTok : σ → Prop} {μ : Board → Nat}
     (hl : Laws c Good) (sl : ScoreLaws c Good TTok μ) (fuel : Nat)
     (alpha beta : Score) (d : Int) (hd : 1 ≤ d)
-    (hrfp : ∀ se, c.rfpCut d se beta = true → beta ≤ se) (s : St σ) (hw : s.nmpOut = false → WinOK alpha beta)
-    (hg : Good s.board) (htt : TTA TTok t0 s) :
+    (hrfp : ∀ se, c.rfpCut d se beta = true → beta ≤ se) (s : St σ) (hw : s.ttOut = false → WinOK alpha beta)
+    (hg : Good s.board) (htt : TTA2 TTok s) :
     let o := alphaBeta c L fuel alpha beta d 0 .pv s
-    o.2.aborted = false → o.2.nmpOut = false → alpha < o.1 → o.1 < beta → RootOut' c.keys s.board o.2 := by
+    o.2.aborted = false → o.2.ttOut = false → alpha < o.1 → o.1 < beta → RootOut' c.keys s.board o.2 := by
   cases fuel with
   | zero => intro o hab; exact absurd hab (by simp [o, alphaBeta])
   | succ fuel =>
@@ -148,19 +146,16 @@ theorem alphaBeta_root_gen (c : Comp σ π) (L : Limits) {Good : Board → Prop}
     rw [if_neg hq]
     have i1 := incrementNodes_frame L (s.setPv (s.pv.setNull (0 : Int).toNat))
     have ips := incrementNodes_ps L (s.setPv (s.pv.setNull (0 : Int).toNat))
-    have ian := incrementNodes_nmpOut L (s.setPv (s.pv.setNull (0 : Int).toNat))
-    have itt := incrementNodes_ttOut L (s.setPv (s.pv.setNull (0 : Int).toNat))
-    generalize incrementNodes L (s.setPv (s.pv.setNull (0 : Int).toNat)) = s1 at i1 ips ian itt ⊢
+    have ian := incrementNodes_ttOut L (s.setPv (s.pv.setNull (0 : Int).toNat))
+    generalize incrementNodes L (s.setPv (s.pv.setNull (0 : Int).toNat)) = s1 at i1 ips ian ⊢
     have a1 := abort_frame L { s1 with abNodes := s1.abNodes + 1 }
     have aps := abort_ps L { s1 with abNodes := s1.abNodes + 1 }
-    have aan := abort_nmpOut L { s1 with abNodes := s1.abNodes + 1 }
-    have att := abort_ttOut L { s1 with abNodes := s1.abNodes + 1 }
+    have aan := abort_ttOut L { s1 with abNodes := s1.abNodes + 1 }
     have hat := abort_true_iff L { s1 with abNodes := s1.abNodes + 1 }
-    generalize abort L { s1 with abNodes := s1.abNodes + 1 } = as at a1 aps aan att hat ⊢
+    generalize abort L { s1 with abNodes := s1.abNodes + 1 } = as at a1 aps aan hat ⊢
     have hb : as.2.board = s.board := by rw [a1.board]; exact i1.board
     have hps : as.2.ps = s.ps := by rw [aps]; exact ips
-    have han : as.2.nmpOut = s.nmpOut := by rw [aan]; exact ian
-    have hatt : as.2.ttOut = s.ttOut := by rw [att]; exact itt
+    have han : as.2.ttOut = s.ttOut := by rw [aan]; exact ian
     split
     · next h => intro hab; rw [← hat, h] at hab; cases hab
     · split
@@ -175,19 +170,19 @@ theorem alphaBeta_root_gen (c : Comp σ π) (L : Limits) {Good : Board → Prop}
           rw [this] at h
           omega
       · next hnd =>
-        have := abBody_root' c L hl sl (alphaBeta c L fuel) (alphaBeta_spec c L hl fuel) (alphaBeta_range c L hl sl fuel)
+        have := abBody_root2 c L hl sl (alphaBeta c L fuel) (alphaBeta_spec c L hl fuel) (alphaBeta_range2 c L hl sl fuel)
           alpha beta d hrfp as.2 (fun hA => hw (by rw [← han]; exact hA)) (by rw [hb]; exact hg)
-          (fifty_lt_of_not_draw hnd) (htt.congr hps han hatt)
+          (fifty_lt_of_not_draw hnd) (htt.congr hps han)
         rw [hb] at this
         exact this
 
 /-- … in a root window (`RootWin`: reverse futility compares without wrapping at every depth). -/
-theorem alphaBeta_root' (c : Comp σ π) (L : Limits) {Good : Board → Prop} {TTok : σ → Prop} {μ : Board → Nat}
+theorem alphaBeta_root2 (c : Comp σ π) (L : Limits) {Good : Board → Prop} {TTok : σ → Prop} {μ : Board → Nat}
     (hl : Laws c Good) (sl : ScoreLaws c Good TTok μ) (fuel : Nat)
-    (alpha beta : Score) (hw : RootWin alpha beta) (d : Int) (hd : 1 ≤ d) (s : St σ) (hg : Good s.board) (htt : TTA TTok t0 s) :
+    (alpha beta : Score) (hw : RootWin alpha beta) (d : Int) (hd : 1 ≤ d) (s : St σ) (hg : Good s.board) (htt : TTA2 TTok s) :
     let o := alphaBeta c L fuel alpha beta d 0 .pv s
-    o.2.aborted = false → o.2.nmpOut = false → alpha < o.1 → o.1 < beta → RootOut' c.keys s.board o.2 :=
-  alphaBeta_root_gen c L hl sl fuel alpha beta d hd (fun se h => sl.rfp_sound d se beta (by omega) hw.2 h) s
+    o.2.aborted = false → o.2.ttOut = false → alpha < o.1 → o.1 < beta → RootOut' c.keys s.board o.2 :=
+  alphaBeta_root_gen2 c L hl sl fuel alpha beta d hd (fun se h => sl.rfp_sound d se beta (by omega) hw.2 h) s
     (fun _ => hw.1) hg htt
 
 end Search
